@@ -29,6 +29,9 @@ def sh(cmd, cwd=None, env=None, timeout=3600):
 def main():
     d = os.path.abspath(sys.argv[1])
     pid = sys.argv[2]
+    owner = pid                      # the property whose check is run (another one than the seeded property with --check Cyy)
+    if "--check" in sys.argv:
+        owner = sys.argv[sys.argv.index("--check") + 1]
     confirm = "--no-confirm" not in sys.argv
     tier = "quick"
     if "--tier" in sys.argv:
@@ -36,6 +39,8 @@ def main():
     patch = os.path.join(d, "patch.diff")
     demo = os.path.join(d, "demo.py")
     out = {"property": pid, "dir": d, "tier": tier}
+    if owner != pid:
+        out["check_property"] = owner
     prev = os.path.join(d, "result.json")
     if not confirm and os.path.exists(prev):
         old = json.load(open(prev))
@@ -88,7 +93,7 @@ def main():
                 out["detect"] = "patch does not apply: " + o[-300:]
             else:
                 t = time.time()
-                rc, o = sh("/venv/bin/python vcheck.py %s --tier %s" % (pid, tier), cwd="/verif", env={"VERIF_REPO": wt})
+                rc, o = sh("/venv/bin/python vcheck.py %s --tier %s" % (owner, tier), cwd="/verif", env={"VERIF_REPO": wt})
                 out["check_rc"] = rc
                 out["check_wall"] = round(time.time() - t, 1)
                 out["detect_on"] = "scratch worktree of /repo HEAD with the patch applied (VERIF_REPO)"
@@ -111,7 +116,7 @@ def main():
             out["detect"] = "patch does not apply to /repo: " + o[-300:]
         else:
             t = time.time()
-            rc, o = sh("/venv/bin/python vcheck.py %s --tier %s" % (pid, tier), cwd="/verif")
+            rc, o = sh("/venv/bin/python vcheck.py %s --tier %s" % (owner, tier), cwd="/verif")
             out["check_rc"] = rc
             out["check_wall"] = round(time.time() - t, 1)
             lines = [l for l in o.splitlines() if l.startswith("VIOLATION") or l.startswith("  module") or l.startswith("MACHINERY")]
